@@ -29,7 +29,7 @@ COMPONENTS = {
     "stub": ["GPU hardware (Numba CUDASIM)"],
 }
 ASSUMPTIONS = [
-    "gain law asserted where |X| >= 1e-3*S (S ~ sum|w| * 2 max|x|) with tolerance |g|*(1e-9 + 64 eps max(L,8)^2 S/|X|); coherence likewise",
+    "gain law asserted at every bin whose relative rounding bound rel = 64 eps max(L,8)^2 S/|X| (S ~ sum|w| * 2 max|x|) is <= 2.5e-3, i.e. also at bins > 150 dB below the strongest one, with tolerance |g|*(1e-9 + rel); coherence with 1e-9 + 4 rel",
     "delay law asserted only at bins with omega*d mod pi in [0.5, pi-0.5] where the longdouble reference estimator on the same plan is itself within 0.25 rad / 25% of exp(-i omega d) (edge effect d/L can move single bins by up to ~0.9 rad)",
     "cross-world agreement of Hxy within the rounding budget relative to XX",
 ]
@@ -66,7 +66,7 @@ def generate(seed, tier):
     cfg["win"] = rw.choice(["kaiser", "kaiser", "hann", "np_kaiser", "bartlett"])
     cfg["olap"] = rw.choice(["default", 0.5, 0.3, 0.75])
     kinds = ["numpy", "real-numba"] if big else list(WORLD_KINDS)
-    data = {"N": N + d, "channels": 1, "recipe": rw.choice(["noise", "noise", "multisine", "trend+noise", "randwalk", "sine+noise"]),
+    data = {"N": N + d, "channels": 1, "recipe": rw.choice(["noise", "noise", "multisine", "trend+noise", "randwalk", "sine+noise", "line+floor", "steepred"]),
             "rng": rw.randrange(2 ** 31), "scale": rw.choice([1.0, 1e-3, 1e3]), "offset": rw.choice([0.0, 0.0, 1.0]), "coupling": 0.0}
     singles = [[rw.randrange(0, 64)] for _ in range(rw.randrange(0, 3))]
     # further stages: the caller refills the SAME preallocated buffer in place and analyses again
@@ -191,14 +191,21 @@ def _execute_stage(sc, out, buf, stage):
             L = int(Ls[j])
             S = S_est[j]
             if law == "gain":
-                if not (xx >= 1e-6 * S * S):
+                # the law is asserted wherever the bin stands clear of the rounding noise of the recurrence:
+                # relative rounding error of X is bounded by 64 eps max(L,8)^2 S/|X| (>= 1000x above the worst observed)
+                if not xx > 0.0:
+                    continue
+                Xabs = np.sqrt(xx)
+                rel = 64 * RM.EPS * max(L, 8) ** 2 * S / Xabs
+                if not rel <= 2.5e-3:
                     continue
                 nguard += 1
-                Xabs = np.sqrt(xx)
-                tol = abs(g) * (1e-9 + 64 * RM.EPS * max(L, 8) ** 2 * S / Xabs)
+                if xx < 1e-12 * S * S:
+                    out.count("gain_law_checked_at_weak_bin")
+                tol = abs(g) * (1e-9 + rel)
                 if not abs(h - g) <= tol:
                     out.violate("gain_law", f"backend={backend} via={via}", f"stage {stage} world={world} bin {j} (f={f[j]:.6g}, L={L}): Hxy={h!r}, expected g={g!r} (tol {tol:.2e})")
-                if not abs(c - 1.0) <= 1e-9 + 64 * RM.EPS * max(L, 8) ** 2 * S / Xabs:
+                if not abs(c - 1.0) <= 1e-9 + 4 * rel:
                     out.violate("gain_coherence", f"backend={backend} via={via}", f"world={world} bin {j}: coherence {c!r} for y = g*x")
             else:
                 if not guard_bins[j]:
